@@ -362,7 +362,10 @@ impl TryFrom<&crate::file::metadata::thrift::PageHeader> for PageMetadata {
     ) -> std::result::Result<Self, Self::Error> {
         match value.r#type {
             PageType::DATA_PAGE => {
-                let header = value.data_page_header.as_ref().unwrap();
+                let header = value
+                    .data_page_header
+                    .as_ref()
+                    .ok_or_else(|| general_err!("Missing data page header"))?;
                 Ok(PageMetadata {
                     num_rows: None,
                     num_levels: Some(header.num_values as _),
@@ -375,7 +378,10 @@ impl TryFrom<&crate::file::metadata::thrift::PageHeader> for PageMetadata {
                 is_dict: true,
             }),
             PageType::DATA_PAGE_V2 => {
-                let header = value.data_page_header_v2.as_ref().unwrap();
+                let header = value
+                    .data_page_header_v2
+                    .as_ref()
+                    .ok_or_else(|| general_err!("Missing data page v2 header"))?;
                 Ok(PageMetadata {
                     num_rows: Some(header.num_rows as _),
                     num_levels: Some(header.num_values as _),
